@@ -588,6 +588,7 @@ func checkScalarPairs(w *World, c *Check, t *tables, rule string) {
 				c.ok(rule, key, w.FuncPos(f), fmt.Sprintf("formats %v", formats))
 			}
 		case "duration":
+			callees = deepCallees(f, 3)
 			wx := usesPkg(callees, "xsd-duration")
 			// readers: getters returning time.Duration
 			for g := range t.getter {
@@ -599,7 +600,7 @@ func checkScalarPairs(w *World, c *Check, t *tables, rule string) {
 				if !ok || n.Obj().Name() != "Duration" || n.Obj().Pkg() == nil || n.Obj().Pkg().Path() != "time" {
 					continue
 				}
-				_, gcallees := formatCalls(g)
+				gcallees := deepCallees(g, 3)
 				rx := usesPkg(gcallees, "xsd-duration")
 				dk := "duration:" + funcName(f) + "↔" + funcName(g)
 				if wx != rx {
@@ -744,6 +745,42 @@ func formatCalls(f *ssa.Function) (formats []string, callees []string) {
 	}
 	sort.Strings(callees)
 	return formats, uniq(callees)
+}
+
+// deepCallees: the callees of f and of the same-package helpers it hands the work to (depth levels of helpers): a codec
+// reached through an extracted helper is still the codec this function uses.
+func deepCallees(f *ssa.Function, depth int) []string {
+	seen := map[*ssa.Function]bool{}
+	var out []string
+	var walk func(g *ssa.Function, d int)
+	walk = func(g *ssa.Function, d int) {
+		if seen[g] || g.Blocks == nil {
+			return
+		}
+		seen[g] = true
+		_, cs := formatCalls(g)
+		out = append(out, cs...)
+		if d == 0 {
+			return
+		}
+		for _, b := range g.Blocks {
+			for _, in := range b.Instrs {
+				if call, ok := in.(ssa.CallInstruction); ok {
+					if cal := call.Common().StaticCallee(); cal != nil && cal.Pkg != nil && cal.Pkg == f.Pkg {
+						walk(cal, d-1)
+					}
+				}
+				if mc, ok := in.(*ssa.MakeClosure); ok {
+					if fn, ok := mc.Fn.(*ssa.Function); ok {
+						walk(fn, d)
+					}
+				}
+			}
+		}
+	}
+	walk(f, depth)
+	sort.Strings(out)
+	return uniq(out)
 }
 
 func usesPkg(callees []string, frag string) bool {
